@@ -539,3 +539,507 @@ Proof.
   - cbn [bool_spellings In] in Hin.
     destruct Hin as [Heq|[Heq|[Heq|[Heq|[Heq|[Heq|[]]]]]]]; injection Heq as <- <-; reflexivity.
 Qed.
+
+(* ================================================================ FLOAT, STRICTFLOAT, NUMBER *)
+Definition nd (E : rxenv) (rest : list N) : Prop :=
+  match rest with [] => True | c :: _ => is_digit E c = false end.
+
+Definition DPLUS : rx := RRep true 1 None (RSet false digit_cat).
+Definition DSTAR : rx := RRep true 0 None (RSet false digit_cat).
+Definition SIGN : rx := RRep true 0 (Some 1) (RSet false sign_pm).
+Definition EE : list citem := [IChar 101; IChar 69].
+Definition EXP : rx := RSeq (RSet false EE) (RSeq SIGN DPLUS).
+Definition WD : list citem := [ICat false CWord; IChar 46].
+Definition TAIL : rx := RSeq (RLookBehind false 1 (RSet false WD)) (RLookAhead true (RSet false WD)).
+Definition FA : rx := RSeq DPLUS (RRep true 0 (Some 1) (RGroup 2 (RSeq (RChr 46) DSTAR))).
+Definition FB : rx := RSeq (RChr 46) DPLUS.
+Definition SA : rx := RSeq DPLUS (RSeq (RChr 46) (RRep true 0 (Some 1) (RGroup 4 DSTAR))).
+Definition ALT1 : rx := RGroup 2 (RSeq (RGroup 3 (RAlt SA FB)) (RRep true 0 (Some 1) (RGroup 5 EXP))).
+Definition ALT2 : rx := RGroup 6 (RSeq (RGroup 7 DPLUS) (RGroup 8 EXP)).
+
+Lemma rx_FLOAT_shape :
+  rx_FLOAT = RSeq SIGN (RSeq (RGroup 1 (RAlt FA FB)) (RSeq (RRep true 0 (Some 1) (RGroup 3 EXP)) TAIL)).
+Proof. reflexivity. Qed.
+
+Lemma rx_STRICTFLOAT_shape :
+  rx_STRICTFLOAT = RSeq SIGN (RSeq (RGroup 1 (RAlt ALT1 ALT2)) TAIL).
+Proof. reflexivity. Qed.
+
+Section Floats.
+Variable E : rxenv.
+Hypothesis Hic : e_ignorecase E = false.
+
+Lemma stops_cat rest : nd E rest -> stops (fun c => xorb false (set_mem E c digit_cat)) rest.
+Proof.
+  destruct rest as [|c t]; [exact (fun _ => I)|]. cbn [stops nd].
+  rewrite xorb_false_l, (mem_digit_cat E Hic). auto.
+Qed.
+
+Lemma first_dplus ds pre tail : ds <> [] -> all_digits ds = true -> nd E tail ->
+  rx_first E DPLUS (pre, ds ++ tail) = Some (rev ds ++ pre, tail).
+Proof.
+  intros Hne Hds Htail. destruct ds as [|c ds']; [contradiction|].
+  apply (first_plus_set E false digit_cat c ds'); [apply (all_digits_cat E Hic); exact Hds | apply stops_cat; exact Htail].
+Qed.
+
+Lemma first_dstar ds pre tail : all_digits ds = true -> nd E tail ->
+  rx_first E DSTAR (pre, ds ++ tail) = Some (rev ds ++ pre, tail).
+Proof.
+  intros Hds Htail.
+  apply (first_star_set E false digit_cat); [apply (all_digits_cat E Hic); exact Hds | apply stops_cat; exact Htail].
+Qed.
+
+Lemma dplus_nil pre tail : nd E tail -> ends E DPLUS (pre, tail) = [].
+Proof. intros H. apply ends_plus_set_nil. apply stops_cat. exact H. Qed.
+
+Lemma is_dig_nd c t : is_dig c = false -> N.ltb c 128 = true -> nd E (c :: t).
+Proof. intros H Hlt. cbn [nd]. unfold is_digit. rewrite Hlt. exact H. Qed.
+
+(* after any way of matching \d+ on a digit run, a continuation that can start neither on a digit
+   nor on what follows the run fails *)
+Lemma dplus_seq_nil r ds pre tail :
+  all_digits ds = true -> nd E tail ->
+  (forall pre', ends E r (pre', tail) = []) ->
+  (forall pre' c t, is_dig c = true -> ends E r (pre', c :: t) = []) ->
+  ends E (RSeq DPLUS r) (pre, ds ++ tail) = [].
+Proof.
+  intros Hds Htail Hr1 Hr2. rewrite ends_seq. apply flat_map_nil. intros st' Hin.
+  unfold DPLUS in Hin.
+  rewrite (ends_plus_set E false digit_cat ds pre tail) in Hin;
+    [| apply (all_digits_cat E Hic); exact Hds | apply stops_cat; exact Htail].
+  destruct ds as [|c ds']; [destruct Hin|].
+  cbn [all_digits forallb] in Hds. apply andb_true_iff in Hds as [_ Hds].
+  destruct (prefix_states_next is_dig _ _ _ _ Hds Hin) as [Hs | (c' & t & Hs & Hc')];
+    destruct st' as [p s]; cbn [snd] in Hs; subst s; auto.
+Qed.
+
+Lemma mem_EE c : set_mem E c EE = (N.eqb c 101 || N.eqb c 69)%bool.
+Proof. rewrite set_mem_plain by exact Hic. cbn. rewrite orb_false_r. reflexivity. Qed.
+
+Lemma mem_WD c : set_mem E c WD = (is_word E c || N.eqb c 46)%bool.
+Proof.
+  rewrite set_mem_plain by exact Hic. cbn [WD existsb item_match cat_match].
+  rewrite xorb_false_l, orb_false_r. reflexivity.
+Qed.
+
+Lemma mem_sign_pm' c : set_mem E c sign_pm = (N.eqb c 45 || N.eqb c 43)%bool.
+Proof. rewrite (mem_sign_pm E Hic). apply orb_comm. Qed.
+
+(* the exponent body  [eE][+-]?\d+ *)
+Lemma first_EXP up so ds pre rest :
+  ds <> [] -> all_digits ds = true -> nd E rest ->
+  rx_first E EXP (pre, exp_chars (Some (up, so, ds)) ++ rest)
+  = Some (rev (exp_chars (Some (up, so, ds))) ++ pre, rest).
+Proof.
+  intros Hne Hds Hrest. unfold EXP.
+  assert (Hsign : match ds ++ rest with c :: _ => N.eqb c 45 = false /\ N.eqb c 43 = false | [] => True end).
+  { destruct ds as [|c ds']; [contradiction|]. cbn [app]. apply digit_not_sign.
+    cbn in Hds. apply andb_true_iff in Hds as [Hc _]. exact Hc. }
+  destruct up; cbn [exp_chars app].
+  - eapply first_seq; [unfold rx_first; rewrite ends_set, mem_EE; reflexivity|].
+    rewrite <- app_assoc.
+    eapply first_seq; [apply (first_opt_sign E sign_pm); [exact mem_sign_pm' | exact Hsign]|].
+    rewrite (first_dplus ds _ rest Hne Hds Hrest). f_equal. f_equal.
+    cbn [rev]. rewrite rev_app_distr, <- !app_assoc. reflexivity.
+  - eapply first_seq; [unfold rx_first; rewrite ends_set, mem_EE; reflexivity|].
+    rewrite <- app_assoc.
+    eapply first_seq; [apply (first_opt_sign E sign_pm); [exact mem_sign_pm' | exact Hsign]|].
+    rewrite (first_dplus ds _ rest Hne Hds Hrest). f_equal. f_equal.
+    cbn [rev]. rewrite rev_app_distr, <- !app_assoc. reflexivity.
+Qed.
+
+Lemma EXP_nil pre rest :
+  match rest with c :: _ => N.eqb c 101 = false /\ N.eqb c 69 = false | [] => True end ->
+  ends E EXP (pre, rest) = [].
+Proof.
+  intros H. unfold EXP. apply ends_seq_nil_l. destruct rest as [|c t]; [reflexivity|].
+  rewrite ends_set, mem_EE. destruct H as [-> ->]. reflexivity.
+Qed.
+
+Lemma exp_len_lt up so ds (rest : list N) : length rest < length (exp_chars (Some (up, so, ds)) ++ rest).
+Proof. rewrite app_length. cbn [exp_chars length]. lia. Qed.
+
+(* the optional exponent, written or not *)
+Lemma first_opt_exp g eo pre rest :
+  exp_ok eo = true -> nd E rest ->
+  (eo = None -> match rest with c :: _ => N.eqb c 101 = false /\ N.eqb c 69 = false | [] => True end) ->
+  rx_first E (RRep true 0 (Some 1) (RGroup g EXP)) (pre, exp_chars eo ++ rest)
+  = Some (rev (exp_chars eo) ++ pre, rest).
+Proof.
+  intros Hok Hrest Hnone. destruct eo as [[[up so] ds]|].
+  - cbn [exp_ok] in Hok. apply andb_true_iff in Hok as [Hne Hds].
+    assert (Hne' : ds <> []) by (intros ->; discriminate).
+    apply first_opt_take; [rewrite first_group; apply first_EXP; assumption | cbn [snd]; apply exp_len_lt].
+  - cbn [exp_chars app rev]. apply first_opt_skip. rewrite ends_group. apply EXP_nil. apply Hnone. reflexivity.
+Qed.
+
+(* look-behind / look-ahead at the end of the literal *)
+Lemma first_TAIL c pre rest :
+  is_dig c = true \/ c = 46%N -> delimited E rest ->
+  rx_first E TAIL (c :: pre, rest) = Some (c :: pre, rest).
+Proof.
+  intros Hc Hrest. unfold TAIL. eapply first_seq.
+  - unfold rx_first. rewrite ends_lookbehind1_set; [reflexivity|].
+    rewrite mem_WD. destruct Hc as [Hc | ->]; [rewrite (is_word_ascii_digit E c Hc); reflexivity | apply orb_true_r].
+  - unfold rx_first. rewrite ends_lookahead_neg_set; [reflexivity|].
+    destruct rest as [|c' t]; [exact I|]. cbn [stops]. rewrite mem_WD.
+    destruct Hrest as (Hw & _ & Hdot). rewrite Hw. apply N.eqb_neq in Hdot. rewrite Hdot. reflexivity.
+Qed.
+
+Lemma delimited_nd rest : delimited E rest -> nd E rest.
+Proof. destruct rest as [|c t]; [auto|]. intros (_ & H & _). exact H. Qed.
+
+Lemma delimited_not_e rest : delimited E rest ->
+  match rest with c :: _ => N.eqb c 101 = false /\ N.eqb c 69 = false | [] => True end.
+Proof.
+  destruct rest as [|c t]; [auto|]. intros (Hw & _ & _).
+  split; apply N.eqb_neq; intros ->; discriminate Hw.
+Qed.
+
+Lemma delimited_not_dot rest : delimited E rest ->
+  match rest with c :: _ => N.eqb c 46 = false | [] => True end.
+Proof. destruct rest as [|c t]; [auto|]. intros (_ & _ & H). apply N.eqb_neq. exact H. Qed.
+
+Lemma delimited_not_digit_next rest : delimited E rest -> not_digit_next rest.
+Proof.
+  destruct rest as [|c t]; [auto|]. intros (_ & H & _). cbn [not_digit_next].
+  destruct (is_dig c) eqn:Hc; [|reflexivity]. rewrite (is_digit_ascii E c Hc) in H. discriminate.
+Qed.
+
+(* what follows the mantissa inside a literal, or after it *)
+Definition mtail_ok (m : mantissa) (tail : list N) : Prop :=
+  nd E tail /\ match m with MInt _ => match tail with c :: _ => N.eqb c 46 = false | [] => True end | _ => True end.
+
+Lemma dot_group_nil g r pre tail :
+  match tail with c :: _ => N.eqb c 46 = false | [] => True end ->
+  ends E (RGroup g (RSeq (RChr 46) r)) (pre, tail) = [].
+Proof.
+  intros H. rewrite ends_group. apply ends_seq_nil_l. destruct tail as [|c t]; [reflexivity|].
+  rewrite ends_chr by exact Hic. rewrite H. reflexivity.
+Qed.
+
+Lemma nd_dot t : nd E (46%N :: t).
+Proof. reflexivity. Qed.
+
+Lemma all_digits_nonempty (ds : list N) : negb (Nat.eqb (length ds) 0) = true -> ds <> [].
+Proof. intros H ->. discriminate. Qed.
+
+(* FLOAT mantissa  (\d+(\.\d* )?|\.\d+) *)
+Lemma first_mant_float m pre tail :
+  mant_ok m = true -> mtail_ok m tail ->
+  rx_first E (RGroup 1 (RAlt FA FB)) (pre, mant_chars m ++ tail) = Some (rev (mant_chars m) ++ pre, tail).
+Proof.
+  intros Hok [Hnd Hdot]. rewrite first_group. destruct m as [ds1 ds2 | ds2 | ds1]; cbn [mant_ok mant_chars] in *.
+  - apply andb_true_iff in Hok as [Hok Hds2]. apply andb_true_iff in Hok as [Hne Hds1].
+    apply all_digits_nonempty in Hne.
+    apply first_alt_l. unfold FA. rewrite <- app_assoc. cbn [app].
+    eapply first_seq; [apply first_dplus; [exact Hne | exact Hds1 | apply nd_dot]|].
+    apply first_opt_take.
+    + rewrite first_group. eapply first_seq.
+      * unfold rx_first. rewrite ends_chr by exact Hic. reflexivity.
+      * rewrite (first_dstar ds2 _ tail Hds2 Hnd). f_equal. f_equal.
+        rewrite rev_app_distr. cbn [rev]. rewrite <- !app_assoc. reflexivity.
+    + cbn [snd length]. rewrite app_length. lia.
+  - apply andb_true_iff in Hok as [Hne Hds2]. apply all_digits_nonempty in Hne.
+    rewrite first_alt_r.
+    + unfold FB. cbn [app]. eapply first_seq.
+      * unfold rx_first. rewrite ends_chr by exact Hic. reflexivity.
+      * rewrite (first_dplus ds2 _ tail Hne Hds2 Hnd). f_equal. f_equal.
+        cbn [rev]. rewrite <- !app_assoc. reflexivity.
+    + unfold FA. apply ends_seq_nil_l. cbn [app]. apply dplus_nil. apply nd_dot.
+  - apply andb_true_iff in Hok as [Hne Hds1]. apply all_digits_nonempty in Hne.
+    apply first_alt_l. unfold FA.
+    eapply first_seq; [apply first_dplus; [exact Hne | exact Hds1 | exact Hnd]|].
+    apply first_opt_skip. apply dot_group_nil. exact Hdot.
+Qed.
+
+(* STRICTFLOAT mantissa with a dot  (\d+\.(\d* )?|\.\d+) *)
+Lemma first_mant_strict m pre tail :
+  mant_ok m = true -> nd E tail -> (forall ds, m <> MInt ds) ->
+  rx_first E (RGroup 3 (RAlt SA FB)) (pre, mant_chars m ++ tail) = Some (rev (mant_chars m) ++ pre, tail).
+Proof.
+  intros Hok Hnd Hm. rewrite first_group. destruct m as [ds1 ds2 | ds2 | ds1]; cbn [mant_ok mant_chars] in *.
+  - apply andb_true_iff in Hok as [Hok Hds2]. apply andb_true_iff in Hok as [Hne Hds1].
+    apply all_digits_nonempty in Hne.
+    apply first_alt_l. unfold SA. rewrite <- app_assoc. cbn [app].
+    eapply first_seq; [apply first_dplus; [exact Hne | exact Hds1 | apply nd_dot]|].
+    eapply first_seq; [unfold rx_first; rewrite ends_chr by exact Hic; reflexivity|].
+    destruct ds2 as [|d ds2'].
+    + (* "12." : the optional \d* makes no progress *)
+      cbn [app]. unfold rx_first. rewrite ends_opt, ends_group. unfold DSTAR.
+      rewrite (ends_star_set E false digit_cat [] _ tail); [| reflexivity | apply stops_cat; exact Hnd].
+      cbn [prefix_states flat_map snd]. rewrite Nat.ltb_irrefl. cbn [app hd_error].
+      rewrite rev_app_distr. reflexivity.
+    + apply first_opt_take.
+      * rewrite first_group. rewrite (first_dstar (d :: ds2') _ tail Hds2 Hnd). f_equal. f_equal.
+        rewrite rev_app_distr. cbn [rev]. rewrite <- !app_assoc. reflexivity.
+      * cbn [snd length app]. rewrite app_length. lia.
+  - apply andb_true_iff in Hok as [Hne Hds2]. apply all_digits_nonempty in Hne.
+    rewrite first_alt_r.
+    + unfold FB. cbn [app]. eapply first_seq.
+      * unfold rx_first. rewrite ends_chr by exact Hic. reflexivity.
+      * rewrite (first_dplus ds2 _ tail Hne Hds2 Hnd). f_equal. f_equal.
+        cbn [rev]. rewrite <- !app_assoc. reflexivity.
+    + unfold SA. apply ends_seq_nil_l. cbn [app]. apply dplus_nil. apply nd_dot.
+  - exfalso. apply (Hm ds1). reflexivity.
+Qed.
+
+(* on a run of digits not followed by a dot, the dotted alternatives of STRICTFLOAT fail *)
+Lemma dotted_nil ds pre tail :
+  all_digits ds = true -> nd E tail ->
+  match tail with c :: _ => N.eqb c 46 = false | [] => True end ->
+  ends E (RGroup 3 (RAlt SA FB)) (pre, ds ++ tail) = [].
+Proof.
+  intros Hds Hnd Hdot. rewrite ends_group. apply ends_alt_nil.
+  - unfold SA. apply dplus_seq_nil; [exact Hds | exact Hnd | |].
+    + intros pre'. apply ends_seq_nil_l. destruct tail as [|c t]; [reflexivity|].
+      rewrite ends_chr by exact Hic. rewrite Hdot. reflexivity.
+    + intros pre' c t Hc. apply ends_seq_nil_l. rewrite ends_chr by exact Hic.
+      rewrite (is_dig_not c 46 Hc eq_refl). reflexivity.
+  - unfold FB. apply ends_seq_nil_l. destruct ds as [|c ds'].
+    + cbn [app]. destruct tail as [|c t]; [reflexivity|]. rewrite ends_chr by exact Hic. rewrite Hdot. reflexivity.
+    + cbn [app]. rewrite ends_chr by exact Hic. cbn in Hds. apply andb_true_iff in Hds as [Hc _].
+      rewrite (is_dig_not c 46 Hc eq_refl). reflexivity.
+Qed.
+
+Lemma last_digit pfx ds : ds <> [] -> all_digits ds = true ->
+  exists c l, rev (pfx ++ ds) = c :: l /\ is_dig c = true.
+Proof.
+  intros Hne Hds. destruct (exists_last Hne) as (ds' & c & ->).
+  exists c, (rev (pfx ++ ds')). split.
+  - rewrite app_assoc, rev_app_distr. reflexivity.
+  - unfold all_digits in Hds. rewrite forallb_app in Hds. apply andb_true_iff in Hds as [_ Hc].
+    cbn in Hc. apply andb_true_iff in Hc as [Hc _]. exact Hc.
+Qed.
+
+Lemma float_last so m eo :
+  mant_ok m = true -> exp_ok eo = true ->
+  exists c l, rev (float_chars so m eo) = c :: l /\ (is_dig c = true \/ c = 46%N).
+Proof.
+  intros Hm He. unfold float_chars. destruct eo as [[[up so'] ds]|].
+  - cbn [exp_ok] in He. apply andb_true_iff in He as [Hne Hds]. apply all_digits_nonempty in Hne.
+    cbn [exp_chars].
+    destruct (last_digit (sign_chars so ++ mant_chars m ++ (if up then 69%N else 101%N) :: sign_chars so') ds Hne Hds)
+      as (c & l & Hr & Hc).
+    exists c, l. split; [|left; exact Hc]. rewrite <- Hr. apply (f_equal (@rev N)).
+    rewrite <- !app_assoc. cbn [app]. rewrite <- ?app_assoc. reflexivity.
+  - cbn [exp_chars]. rewrite app_nil_r.
+    destruct m as [ds1 ds2 | ds2 | ds1]; cbn [mant_ok mant_chars] in *.
+    + apply andb_true_iff in Hm as [Hm Hds2]. destruct ds2 as [|d ds2'].
+      * exists 46%N, (rev (sign_chars so ++ ds1)). split; [|right; reflexivity].
+        rewrite app_assoc, rev_app_distr. reflexivity.
+      * destruct (last_digit (sign_chars so ++ ds1 ++ [46%N]) (d :: ds2') ltac:(discriminate) Hds2) as (c & l & Hr & Hc).
+        exists c, l. split; [|left; exact Hc]. rewrite <- Hr. apply (f_equal (@rev N)). rewrite <- !app_assoc. reflexivity.
+    + apply andb_true_iff in Hm as [Hne Hds2]. apply all_digits_nonempty in Hne.
+      destruct (last_digit (sign_chars so ++ [46%N]) ds2 Hne Hds2) as (c & l & Hr & Hc).
+      exists c, l. split; [|left; exact Hc]. rewrite <- Hr. apply (f_equal (@rev N)). rewrite <- !app_assoc. reflexivity.
+    + apply andb_true_iff in Hm as [Hne Hds1]. apply all_digits_nonempty in Hne.
+      destruct (last_digit (sign_chars so) ds1 Hne Hds1) as (c & l & Hr & Hc).
+      exists c, l. split; [|left; exact Hc]. exact Hr.
+Qed.
+
+Lemma mant_head_not_sign m t : mant_ok m = true ->
+  match mant_chars m ++ t with c :: _ => N.eqb c 45 = false /\ N.eqb c 43 = false | [] => True end.
+Proof.
+  intros Hm. destruct m as [ds1 ds2 | ds2 | ds1]; cbn [mant_ok mant_chars] in *.
+  - apply andb_true_iff in Hm as [Hm _]. apply andb_true_iff in Hm as [Hne Hds].
+    destruct ds1 as [|c ds1']; [discriminate|]. cbn [app]. apply digit_not_sign.
+    cbn in Hds. apply andb_true_iff in Hds as [Hc _]. exact Hc.
+  - cbn [app]. split; reflexivity.
+  - apply andb_true_iff in Hm as [Hne Hds].
+    destruct ds1 as [|c ds1']; [discriminate|]. cbn [app]. apply digit_not_sign.
+    cbn in Hds. apply andb_true_iff in Hds as [Hc _]. exact Hc.
+Qed.
+
+Lemma exp_tail_nd eo rest : nd E rest -> nd E (exp_chars eo ++ rest).
+Proof. intros H. destruct eo as [[[[|] so] ds]|]; [reflexivity | reflexivity | exact H]. Qed.
+
+Lemma exp_tail_not_dot eo rest :
+  match rest with c :: _ => N.eqb c 46 = false | [] => True end ->
+  match exp_chars eo ++ rest with c :: _ => N.eqb c 46 = false | [] => True end.
+Proof. intros H. destruct eo as [[[[|] so] ds]|]; [reflexivity | reflexivity | exact H]. Qed.
+
+Lemma float_state so m eo pre :
+  rev (exp_chars eo) ++ rev (mant_chars m) ++ rev (sign_chars so) ++ pre = rev (float_chars so m eo) ++ pre.
+Proof. unfold float_chars. rewrite !rev_app_distr, <- !app_assoc. reflexivity. Qed.
+
+(* FLOAT matches every float literal (and plain integers) in full *)
+Lemma first_float so m eo pre rest :
+  mant_ok m = true -> exp_ok eo = true -> delimited E rest ->
+  rx_first E rx_FLOAT (pre, float_chars so m eo ++ rest) = Some (rev (float_chars so m eo) ++ pre, rest).
+Proof.
+  intros Hm He Hrest. rewrite rx_FLOAT_shape. unfold float_chars. rewrite <- !app_assoc.
+  eapply first_seq.
+  { apply (first_opt_sign E sign_pm); [exact mem_sign_pm' | apply mant_head_not_sign; exact Hm]. }
+  eapply first_seq.
+  { apply first_mant_float; [exact Hm|]. split.
+    - apply exp_tail_nd, delimited_nd, Hrest.
+    - destruct m; auto. apply exp_tail_not_dot, delimited_not_dot, Hrest. }
+  eapply first_seq.
+  { apply first_opt_exp; [exact He | apply delimited_nd, Hrest | intros _; apply delimited_not_e, Hrest]. }
+  rewrite float_state. destruct (float_last so m eo Hm He) as (c & l & Hr & Hc).
+  unfold float_chars in *. rewrite Hr. cbn [app]. apply first_TAIL; assumption.
+Qed.
+
+(* STRICTFLOAT matches every literal with a '.' or an exponent in full *)
+Lemma first_strictfloat so m eo pre rest :
+  mant_ok m = true -> exp_ok eo = true -> is_float_form m eo = true -> delimited E rest ->
+  rx_first E rx_STRICTFLOAT (pre, float_chars so m eo ++ rest) = Some (rev (float_chars so m eo) ++ pre, rest).
+Proof.
+  intros Hm He Hform Hrest. rewrite rx_STRICTFLOAT_shape. unfold float_chars. rewrite <- !app_assoc.
+  eapply first_seq.
+  { apply (first_opt_sign E sign_pm); [exact mem_sign_pm' | apply mant_head_not_sign; exact Hm]. }
+  eapply first_seq.
+  { rewrite first_group.
+    assert (Hcase : (forall ds, m <> MInt ds) \/ exists ds up so' ds3, m = MInt ds /\ eo = Some (up, so', ds3)).
+    { destruct m as [ds1 ds2 | ds2 | ds1]; [left; discriminate | left; discriminate |].
+      destruct eo as [[[up so'] ds3]|]; [|discriminate]. right. exists ds1, up, so', ds3. split; reflexivity. }
+    destruct Hcase as [Hdot | (ds & up & so' & ds3 & -> & ->)].
+    - apply first_alt_l. unfold ALT1. rewrite first_group. eapply first_seq.
+      + apply first_mant_strict; [exact Hm | apply exp_tail_nd, delimited_nd, Hrest | exact Hdot].
+      + apply first_opt_exp; [exact He | apply delimited_nd, Hrest | intros _; apply delimited_not_e, Hrest].
+    - cbn [mant_ok mant_chars exp_ok] in *.
+      apply andb_true_iff in Hm as [Hne Hds]. apply all_digits_nonempty in Hne.
+      apply andb_true_iff in He as [Hne3 Hds3]. apply all_digits_nonempty in Hne3.
+      rewrite first_alt_r.
+      + unfold ALT2. rewrite first_group. eapply first_seq.
+        * rewrite first_group. apply first_dplus; [exact Hne | exact Hds |]. destruct up; reflexivity.
+        * rewrite first_group. apply first_EXP; [exact Hne3 | exact Hds3 | apply delimited_nd, Hrest].
+      + unfold ALT1. rewrite ends_group. apply ends_seq_nil_l.
+        apply dotted_nil; [exact Hds | destruct up; reflexivity | destruct up; reflexivity]. }
+  rewrite float_state. destruct (float_last so m eo Hm He) as (c & l & Hr & Hc).
+  unfold float_chars in *. rewrite Hr. cbn [app]. apply first_TAIL; assumption.
+Qed.
+
+(* STRICTFLOAT does not match any part of a plain integer *)
+Lemma strictfloat_int_nil so ds pre rest :
+  ds <> [] -> all_digits ds = true -> delimited E rest ->
+  ends E rx_STRICTFLOAT (pre, sign_chars so ++ ds ++ rest) = [].
+Proof.
+  intros Hne Hds Hrest. rewrite rx_STRICTFLOAT_shape. rewrite ends_seq.
+  assert (Hbody : forall pre', ends E (RSeq (RGroup 1 (RAlt ALT1 ALT2)) TAIL) (pre', ds ++ rest) = []).
+  { intros pre'. apply ends_seq_nil_l. rewrite ends_group. apply ends_alt_nil.
+    - unfold ALT1. rewrite ends_group. apply ends_seq_nil_l.
+      apply dotted_nil; [exact Hds | apply delimited_nd, Hrest | apply delimited_not_dot, Hrest].
+    - unfold ALT2. rewrite ends_group. rewrite ends_seq, ends_group. fold (ends E (RSeq DPLUS (RGroup 8 EXP)) (pre', ds ++ rest)).
+      apply dplus_seq_nil; [exact Hds | apply delimited_nd, Hrest | |].
+      + intros p. rewrite ends_group. apply EXP_nil. apply delimited_not_e, Hrest.
+      + intros p c t Hc. rewrite ends_group. apply EXP_nil.
+        split; apply (is_dig_not c _ Hc); reflexivity. }
+  unfold SIGN. rewrite (ends_opt_sign E sign_pm so pre (ds ++ rest) mem_sign_pm').
+  2:{ destruct ds as [|c ds']; [contradiction|]. cbn [app]. apply digit_not_sign.
+      cbn in Hds. apply andb_true_iff in Hds as [Hc _]. exact Hc. }
+  destruct so as [b|].
+  - cbn [flat_map]. rewrite Hbody. cbn [app]. rewrite app_nil_r.
+    apply ends_seq_nil_l. rewrite ends_group.
+    assert (Hs : exists s, sign_chars (Some b) = [s] /\ (s = 43%N \/ s = 45%N)).
+    { destruct b; eexists; split; try reflexivity; auto. }
+    destruct Hs as (s & -> & Hs). cbn [app].
+    assert (Hnds : nd E (s :: ds ++ rest)) by (destruct Hs as [-> | ->]; reflexivity).
+    assert (Hndot : N.eqb s 46 = false) by (destruct Hs as [-> | ->]; reflexivity).
+    apply ends_alt_nil.
+    + unfold ALT1. rewrite ends_group. apply ends_seq_nil_l. rewrite ends_group. apply ends_alt_nil.
+      * unfold SA. apply ends_seq_nil_l. apply dplus_nil. exact Hnds.
+      * unfold FB. apply ends_seq_nil_l. rewrite ends_chr by exact Hic. rewrite Hndot. reflexivity.
+    + unfold ALT2. rewrite ends_group. apply ends_seq_nil_l. rewrite ends_group. apply dplus_nil. exact Hnds.
+  - cbn [flat_map]. rewrite Hbody. reflexivity.
+Qed.
+
+End Floats.
+
+Lemma float_chars_length so m eo : mant_ok m = true -> exists n, length (float_chars so m eo) = S n.
+Proof.
+  intros Hm. destruct (float_chars so m eo) as [|c l] eqn:Hl; [|eexists; reflexivity].
+  exfalso. unfold float_chars in Hl. apply app_eq_nil in Hl as [_ Hl]. apply app_eq_nil in Hl as [Hl _].
+  destruct m as [ds1 ds2 | ds2 | ds1]; cbn [mant_chars mant_ok] in *.
+  - apply app_eq_nil in Hl as [_ Hl]. discriminate.
+  - discriminate.
+  - subst ds1. discriminate.
+Qed.
+
+Lemma leaf_match_first E t r pre lit rest pre' n :
+  bt_rx t = Some r -> length lit = S n ->
+  rx_first E r (pre, lit ++ rest) = Some (pre', rest) ->
+  leaf_match E t pre (lit ++ rest) = Some (t, length lit).
+Proof.
+  intros Hr Hn Hf. unfold leaf_match. rewrite Hr. rewrite (rx_match_first_app _ _ _ _ _ _ Hf), Hn. reflexivity.
+Qed.
+
+Lemma choice_NUMBER_shape : choice_NUMBER = [4; 2]%nat.
+Proof. reflexivity. Qed.
+
+(* FLOAT, STRICTFLOAT and NUMBER match a literal with '.' or exponent in full; NUMBER takes it as STRICTFLOAT *)
+Theorem float_extent u so m eo pre rest :
+  mant_ok m = true -> exp_ok eo = true -> is_float_form m eo = true -> delimited (src_env u) rest ->
+  bt_match (src_env u) TFLOAT pre (float_chars so m eo ++ rest) = Some (TFLOAT, length (float_chars so m eo))
+  /\ bt_match (src_env u) TSTRICTFLOAT pre (float_chars so m eo ++ rest) = Some (TSTRICTFLOAT, length (float_chars so m eo))
+  /\ bt_match (src_env u) TNUMBER pre (float_chars so m eo ++ rest) = Some (TSTRICTFLOAT, length (float_chars so m eo)).
+Proof.
+  intros Hm He Hform Hrest. destruct (float_chars_length so m eo Hm) as [n Hn].
+  assert (HS : leaf_match (src_env u) TSTRICTFLOAT pre (float_chars so m eo ++ rest)
+               = Some (TSTRICTFLOAT, length (float_chars so m eo))).
+  { eapply leaf_match_first; [reflexivity | exact Hn |].
+    apply first_strictfloat; [apply src_env_ic | assumption..]. }
+  split; [|split].
+  - cbn [bt_match]. eapply leaf_match_first; [reflexivity | exact Hn |].
+    apply first_float; [apply src_env_ic | assumption..].
+  - exact HS.
+  - cbn [bt_match]. unfold number_match. rewrite choice_NUMBER_shape. cbn [first_some code_leaf_match bt_of_code].
+    rewrite HS. reflexivity.
+Qed.
+
+(* NUMBER on a plain integer literal: STRICTFLOAT matches no part of it, INT takes all of it *)
+Theorem number_int_choice u so ds pre rest :
+  ds <> [] -> all_digits ds = true -> delimited (src_env u) rest ->
+  rx_match (src_env u) rx_STRICTFLOAT pre ((sign_chars so ++ ds) ++ rest) = None
+  /\ bt_match (src_env u) TNUMBER pre ((sign_chars so ++ ds) ++ rest) = Some (TINT, length (sign_chars so ++ ds)).
+Proof.
+  intros Hne Hds Hrest.
+  assert (HN : rx_match (src_env u) rx_STRICTFLOAT pre ((sign_chars so ++ ds) ++ rest) = None).
+  { apply rx_match_nil. rewrite <- app_assoc. apply strictfloat_int_nil; [apply src_env_ic | assumption..]. }
+  split; [exact HN|].
+  cbn [bt_match]. unfold number_match. rewrite choice_NUMBER_shape. cbn [first_some code_leaf_match bt_of_code].
+  unfold leaf_match at 1. cbn [bt_rx]. rewrite HN.
+  pose proof (int_bt_match u so ds pre rest Hne Hds (delimited_not_digit_next (src_env u) rest Hrest)) as Hi.
+  cbn [bt_match] in Hi. rewrite Hi. reflexivity.
+Qed.
+
+Theorem number_int_roundtrip u z pre rest :
+  delimited (src_env u) rest ->
+  bt_match (src_env u) TNUMBER pre (dec_text z ++ rest) = Some (TINT, length (dec_text z))
+  /\ convert TINT (dec_text z) = VInt z.
+Proof.
+  intros Hrest. split.
+  - destruct (dec_text_shape z) as (so & ds & -> & Hne & Hds & _).
+    apply (number_int_choice u so ds pre rest Hne Hds Hrest).
+  - cbn [convert]. rewrite int_of_dec_text. reflexivity.
+Qed.
+
+(* FLOAT also takes a plain integer literal in full (as a float) *)
+Theorem float_on_int u so ds pre rest :
+  ds <> [] -> all_digits ds = true -> delimited (src_env u) rest ->
+  bt_match (src_env u) TFLOAT pre ((sign_chars so ++ ds) ++ rest) = Some (TFLOAT, length (sign_chars so ++ ds)).
+Proof.
+  intros Hne Hds Hrest.
+  assert (Hm : mant_ok (MInt ds) = true).
+  { cbn [mant_ok]. rewrite Hds. destruct ds; [contradiction|reflexivity]. }
+  pose proof (first_float (src_env u) (src_env_ic u) so (MInt ds) None pre rest Hm eq_refl Hrest) as Hf.
+  unfold float_chars in Hf. cbn [mant_chars exp_chars] in Hf. rewrite app_nil_r in Hf.
+  destruct (float_chars_length so (MInt ds) None Hm) as [n Hn].
+  unfold float_chars in Hn. cbn [mant_chars exp_chars] in Hn. rewrite app_nil_r in Hn.
+  cbn [bt_match]. eapply leaf_match_first; [reflexivity | exact Hn | exact Hf].
+Qed.
+
+(* ---- single values and sequences through the loading loop *)
+Lemma is_ws_delimited u w rest : forallb is_ws w = true -> w <> [] -> delimited (src_env u) (w ++ rest).
+Proof.
+  intros Hw Hne. destruct w as [|c w']; [contradiction|]. cbn [app delimited].
+  cbn [forallb] in Hw. apply andb_true_iff in Hw as [Hc _].
+  unfold is_ws in Hc. change src_ws with [9; 10; 13; 32]%N in Hc. cbn [existsb] in Hc.
+  repeat (apply orb_true_iff in Hc as [Hc | Hc]; [apply N.eqb_eq in Hc; subst c; repeat split; discriminate |]).
+  discriminate.
+Qed.
+
+Lemma number_nil u t pre : t = TINT \/ t = TFLOAT \/ t = TSTRICTFLOAT \/ t = TNUMBER \/ t = TBOOL ->
+  bt_match (src_env u) t pre [] = None.
+Proof. intros [-> | [-> | [-> | [-> | ->]]]]; reflexivity. Qed.
